@@ -26,6 +26,7 @@ import (
 	"sigs.k8s.io/controller-runtime/pkg/client"
 	"sigs.k8s.io/controller-runtime/pkg/client/interceptor"
 	"sigs.k8s.io/controller-runtime/pkg/log"
+	"sigs.k8s.io/controller-runtime/pkg/reconcile"
 
 	v1 "sigs.k8s.io/karpenter/pkg/apis/v1"
 	"sigs.k8s.io/karpenter/pkg/controllers/node/termination/terminator"
@@ -188,6 +189,7 @@ type call struct {
 
 type plan struct {
 	api      string // AOk ANotFound AConflict ATooMany AMultiPDB AOther
+	flavor   string // how the API server words that answer (same model constructor)
 	nodeOK   bool
 	listFail bool
 }
@@ -201,6 +203,8 @@ type sut struct {
 	writes []string
 	plan   plan
 	sig    string
+	gate   *gate
+	racing bool // a reconcile is parked at the gate: do not reset the call log
 }
 
 var podGR = schema.GroupResource{Resource: "pods"}
@@ -214,9 +218,22 @@ func (s *sut) apiErr(name string) error {
 	case "AConflict":
 		return apierrors.NewConflict(podGR, name, errors.New("precondition failed: UID in precondition differs"))
 	case "ATooMany":
+		switch s.plan.flavor {
+		case "429-unhealthy-pod-if-healthy-budget":
+			// unhealthyPodEvictionPolicy=IfHealthyBudget and the budget is not healthy: still a 429 for the caller
+			return apierrors.NewTooManyRequests("Cannot evict pod as it would violate the pod's disruption budget. The disruption budget pdb needs 3 healthy pods and has 1 currently", 5)
+		case "429-with-multi-pdb-message":
+			return apierrors.NewTooManyRequests(multiPDBMessage, 0)
+		}
 		return apierrors.NewTooManyRequests("Cannot evict pod as it would violate the pod's disruption budget.", 0)
 	case "AMultiPDB":
 		return &apierrors.StatusError{ErrStatus: metav1.Status{Status: metav1.StatusFailure, Code: 500, Message: multiPDBMessage}}
+	}
+	switch s.plan.flavor {
+	case "plain-error-with-multi-pdb-text":
+		return errors.New(multiPDBMessage) // not an APIStatus: the message must not be recognised
+	case "500-other-message":
+		return &apierrors.StatusError{ErrStatus: metav1.Status{Status: metav1.StatusFailure, Code: 500, Message: multiPDBMessage + " "}}
 	}
 	return apierrors.NewInternalError(errors.New("etcd unavailable"))
 }
@@ -230,6 +247,7 @@ func (s *sut) funcs() interceptor.Funcs {
 				return nil
 			}
 			s.calls = append(s.calls, call{kind: "evict", key: podKey(pod)})
+			s.gate.hit()
 			return s.apiErr(pod.Name)
 		},
 		Delete: func(ctx context.Context, _ client.WithWatch, obj client.Object, opts ...client.DeleteOption) error {
@@ -245,6 +263,7 @@ func (s *sut) funcs() interceptor.Funcs {
 				g = *do.GracePeriodSeconds
 			}
 			s.calls = append(s.calls, call{kind: "delete", key: podKey(pod), grace: g})
+			s.gate.hit()
 			return s.apiErr(pod.Name)
 		},
 		Create: func(ctx context.Context, _ client.WithWatch, obj client.Object, _ ...client.CreateOption) error {
@@ -287,7 +306,7 @@ func (s *sut) funcs() interceptor.Funcs {
 }
 
 func newSut() *sut {
-	s := &sut{clk: clock.NewFakeClock(base), sw: &swap{}}
+	s := &sut{clk: clock.NewFakeClock(base), sw: &swap{}, gate: newGate()}
 	s.restart()
 	return s
 }
@@ -295,7 +314,7 @@ func newSut() *sut {
 // restart = process restart: a new queue and terminator (Queue.items is in-memory only).
 func (s *sut) restart() {
 	rec := test.NewEventRecorder()
-	s.q = terminator.NewQueue(s.clk, s.sw, rec)
+	s.q = terminator.NewQueue(gateClock{FakeClock: s.clk, g: s.gate}, s.sw, rec)
 	s.term = terminator.NewTerminator(s.clk, s.sw, s.q, rec)
 }
 
@@ -303,7 +322,9 @@ var theNode = &corev1.Node{ObjectMeta: metav1.ObjectMeta{Name: nodeName}, Spec: 
 
 // install puts the given pods (and the node) behind the client the queue and terminator use.
 func (s *sut) install(pods []*podSpec) {
-	s.calls, s.writes = nil, nil
+	if !s.racing {
+		s.calls, s.writes = nil, nil
+	}
 	// every write is intercepted and never forwarded, so a client is immutable and can be reused while the
 	// world is unchanged
 	sort.Slice(pods, func(i, j int) bool { return pods[i].Name < pods[j].Name })
@@ -623,6 +644,11 @@ func (h *hist) reconcile(p *podSpec, pl plan) (act string, ok bool) {
 	}
 	before := h.s.snapshot()
 	res, err := h.s.q.Reconcile(h.ctx, obj)
+	return h.finishReconcile(obj, p, pl, before, res, err)
+}
+
+// finishReconcile records what one (unraced) reconcile did.
+func (h *hist) finishReconcile(obj *corev1.Pod, p *podSpec, pl plan, before []qitem, res reconcile.Result, err error) (act string, ok bool) {
 	after := h.s.snapshot()
 	_ = h.s.q.VerifDrainSource()
 	gact, gres := "None", "RDone"
@@ -685,6 +711,9 @@ func (h *hist) reconcile(p *podSpec, pl plan) (act string, ok bool) {
 			h.c.Count("rec:force-delete:grace>1s")
 		}
 	case act == "evict":
+		if pl.flavor != "" {
+			h.c.Count("rec:evict:answer-flavor:" + pl.flavor + ":" + gres)
+		}
 		h.c.Count("rec:evict:" + pl.api + map[bool]string{true: "", false: ":node-missing"}[pl.nodeOK || (pl.api != "ATooMany" && pl.api != "AMultiPDB")] + ":" + gres)
 	case !still:
 		h.c.Count("rec:inactive-completed")
@@ -1043,6 +1072,12 @@ func runHistory(c *kit.Ctx, nOps int) {
 				h.c.Count("rec:stale-object")
 			}
 			pl := plan{api: kit.Pick(r, apiPlans), nodeOK: !r.Chance(1, 12)}
+			switch pl.api {
+			case "ATooMany":
+				pl.flavor = kit.Pick(r, []string{"", "", "429-unhealthy-pod-if-healthy-budget", "429-with-multi-pdb-message"})
+			case "AOther":
+				pl.flavor = kit.Pick(r, []string{"", "plain-error-with-multi-pdb-text", "500-other-message"})
+			}
 			act, ok := h.reconcile(p, pl)
 			if act != "" && ok {
 				g := int64(0)
@@ -1131,6 +1166,28 @@ func main() {
 			}
 		}
 	}
+	// (C) a drain pass inside the unlocked window of one reconcile (forced goroutine order)
+	nRace := 250
+	if c.Thorough() {
+		nRace = 2500
+	}
+	if os.Getenv("VERIF_C10_SKIP_RACE") != "" { // development: mutation runs before the known finding is listed
+		nRace = -1
+	}
+	if nRace >= 0 {
+		runRaceWitness(c)
+	}
+	for i := 0; i < nRace; i++ {
+		runRace(c)
+	}
+	// (D) node level: the real node termination controller around the drain
+	nNode := 300
+	if c.Thorough() {
+		nNode = 3000
+	}
+	for i := 0; i < nNode; i++ {
+		runNode(c)
+	}
 	// (B) random histories
 	for i := 0; i < nHist; i++ {
 		runHistory(c, c.Rand.Range(4, histLen))
@@ -1142,11 +1199,13 @@ func main() {
 		"terminator.Terminator.Drain (+ pod.IsWaitingEviction/IsDrainable/IsStuckTerminating/ToleratesDisruptedNoScheduleTaint/IsOwnedBy, needsForceDelete, groupPodsByPriority, Queue.Add, earlier) = C10.Model.drain",
 		"terminator.Queue.Reconcile (+ needsForceDelete, pod.IsActive/IsEvictable/IsDoNotDisruptActive, evict, forceDelete, complete) = C10.Model.reconcile",
 		"process restart (NewQueue) = C10.Model.step ORestart",
+		"termination.Controller.Reconcile (finalize: nodeTerminationTime, awaitDrain, Drained condition) = C10.Node.node_pass",
+		"Queue.Reconcile with a Terminator.Drain pass inside its unlocked window (forced goroutine order) = C10.Split.{read, decide, complete} around C10.Model.drain",
 	}
 	c.Meta.Extra = map[string]interface{}{"assumptions": []string{
 		"time differences stay below 2^23 s so that Duration.Seconds() is exact; grace periods below 2^33 s (no int64 overflow in Duration arithmetic)",
 		"one op = one call of Terminator.Drain or Queue.Reconcile; both access Queue.items only under the queue mutex",
 		"pods are abstracted to the fields read by the drain path (harness toModel)",
 	}}
-	c.Finish("From KV Require Import C10.Model C10.Check.", "case", "check_all", 300)
+	c.Finish("From KV Require Import C10.Model C10.Node C10.Check.", "case", "check_all", 300)
 }
